@@ -331,10 +331,18 @@ def known_findings(prop):
     if not os.path.exists(p): return out
     for line in open(p):
         line = line.strip()
-        m = re.match(r"finding:\s+property=(\w+)\s+key=(\S+)\s+(.*)", line)
+        m = re.match(r"finding:\s+property=(\w+)\s+key=(\S+)\s+(?:witness=(\S+)\s+)?(.*)", line)
         if m and m.group(1) == prop:
-            out.append((m.group(2), m.group(3)))
+            out.append((m.group(2), m.group(4), m.group(3)))
     return out
+
+
+def failure_key(verdict):
+    """Key of an implementation failure: panic site (file:line), signal, timeout."""
+    first = verdict.split(" ")[0]
+    if first.startswith("panic@"): return "impl-failure:" + first
+    if first.startswith("crash:"): return "impl-failure:" + first
+    return "impl-failure:" + first.split(":")[0]
 
 
 class Check:
@@ -346,7 +354,10 @@ class Check:
         self.assumptions = []
         self.violations = []     # (key, description, replay_text)
         self.known_hit = {}      # key -> description
-        self.known = dict(known_findings(prop))
+        kf = known_findings(prop)
+        self.known = {k: d for k, d, w in kf}
+        self.known_witness = {k: w for k, d, w in kf if w}
+        self.witness_runner = None   # callable(source text) -> violation key or None
         self.work = os.path.join(CACHE, "work", prop)
         shutil.rmtree(self.work, ignore_errors=True)
         os.makedirs(self.work, exist_ok=True)
@@ -365,6 +376,22 @@ class Check:
 
     def finish(self):
         os.makedirs(os.path.join(VERIF, "evidence", "replay"), exist_ok=True)
+        for old in glob.glob(os.path.join(VERIF, "evidence", "replay", "%s-*.txt" % self.prop)):
+            os.remove(old)
+        # listed findings: re-run the stored witness, so that the line is printed
+        # exactly while the witness still fails
+        if self.witness_runner is not None:
+            for k, w in sorted(self.known_witness.items()):
+                if k in self.known_hit: continue
+                try:
+                    src = open(os.path.join(VERIF, w), encoding="utf-8").read()
+                    got = self.witness_runner(src)
+                except Exception as e:
+                    got = None; self.log("witness %s could not be run: %s" % (w, e))
+                if got is not None and (got == k or (k.endswith("*") and got.startswith(k[:-1]))):
+                    self.known_hit[k] = self.known[k]
+                else:
+                    self.log("listed finding %s: witness %s no longer fails (got %s)" % (k, w, got))
         for k, d in sorted(self.known_hit.items()):
             print("KNOWN-FINDING: property=%s %s (%s)" % (self.prop, d, k))
         seen = set(); n = 0
